@@ -140,3 +140,90 @@ Proof.
   destruct (extsim_chain K dm fs fs2 fs3 _ _ sA sB sC E12 E23) as (base & E13).
   exists base. split; [cbn; congruence|]. split; [cbn; congruence|exact E13].
 Qed.
+
+(* ---------- any number of invocations ---------- *)
+
+Section Chain.
+  Variable K : bytes -> Prop.
+  Variable dm : N.
+  Variable cfg : config.
+  Variable db : patches_db.
+
+  (* consecutive invocations: each starts with nothing in memory on the tree its predecessor left, at the index it
+     reached, applies its whole segment and meets the premises of fresh_then_next *)
+  Inductive chain : fsys -> nat -> list (list series_patch) -> fsys -> nat -> Prop :=
+  | ch_nil fs n : chain fs n [] fs n
+  | ch_cons fs n seg segs st rejs fs1 cl fs_end n_end :
+      apply_series cfg db fresh n seg fs = (fs, ROk (st, (n + length seg)%nat, rejs)) ->
+      invocation_ok K dm cfg db fs n seg st fs1 cl ->
+      chain (fst (clean_all cl fs1)) (n + length seg)%nat segs fs_end n_end ->
+      chain fs n (seg :: segs) fs_end n_end.
+
+  Lemma ressim_sersim_chain fs1 fs2 fs3 b1 bm (x y z : res (astate * nat * list rej_file)) :
+    ressim (sersim K dm fs1 fs2 b1 []) x y -> ressim (sersim K dm fs2 fs3 bm []) y z ->
+    exists base, ressim (sersim K dm fs1 fs3 base []) x z.
+  Proof.
+    destruct x as [[[sA nA] rA]|eA|], y as [[[sB nB] rB]|eB|], z as [[[sC nC] rC]|eC|];
+      cbn [ressim]; try contradiction; try (intros; exists []; congruence); try (intros; exists []; exact I).
+    intros (N12 & R12 & E12) (N23 & R23 & E23). cbn [fst snd] in *.
+    destruct (extsim_chain K dm fs1 fs2 fs3 _ _ sA sB sC E12 E23) as (base & E13).
+    exists base. split; [cbn; congruence|]. split; [cbn; congruence|exact E13].
+  Qed.
+
+  (* C09 for every split: a run that goes on in memory - from any state that reads as "nothing in memory" on the tree
+     the chain starts from - over all segments and a rest ends as the last of the chain's invocations does *)
+  Theorem split_pushes_equal_one : c_dry_run cfg = false ->
+    forall fs n segs fs_end n_end, chain fs n segs fs_end n_end ->
+    forall fsA sA baseA rest,
+      extsim K dm fsA fs baseA [] sA fresh -> (forall s, In s baseA -> (st_index s < n)%nat) ->
+      series_in K db (List.concat segs ++ rest) ->
+      exists base,
+        ressim (sersim K dm fsA fs_end base [])
+               (snd (apply_series cfg db sA n (List.concat segs ++ rest) fsA))
+               (snd (apply_series cfg db fresh n_end rest fs_end)).
+  Proof.
+    intros Hdry fs n segs fs_end n_end Hc.
+    induction Hc as [fs n|fs n seg segs st rejs fs1 cl fs_end n_end Ha Hok Hc IH]; intros fsA sA baseA rest Hext HbA Hin.
+    - cbn [List.concat app] in *.
+      destruct (apply_series_sim K dm cfg db fsA fs baseA [] n HbA ltac:(intros s []) rest sA fresh n Hin (Nat.le_refl n) Hext)
+        as (_ & _ & H). exists baseA. exact H.
+    - cbn [List.concat] in *. rewrite <- app_assoc in *.
+      destruct (apply_series_sim K dm cfg db fsA fs baseA [] n HbA ltac:(intros s []) _ sA fresh n Hin (Nat.le_refl n) Hext)
+        as (_ & _ & H1).
+      rewrite (apply_series_app cfg db seg (List.concat segs ++ rest) fresh n fs), Ha, Nat.eqb_refl in H1.
+      (* the state the invocation ends in, on its tree, reads as nothing in memory on the tree it leaves *)
+      destruct Hok as (Hd & Hf & Hw & Hsz & Hs & Hne & Hnt & Hl & Ho).
+      pose proof (series_sizes_small _ _ _ _ _ _ Hsz) as Hsm.
+      destruct (empty_state_ok dm) as (Hok0 & Hinv0 & _).
+      assert (Hb0 : forall s, In s (a_applied fresh) -> (st_index s < n)%nat) by (intros s []).
+      pose proof (apply_series_ainv dm cfg db fs Hd Hdry _ _ _ _ _ _ Ha Hsm Hb0 Hinv0) as Hinv'.
+      destruct (apply_series_names cfg db _ _ _ _ _ _ _ _ Ha Hok0) as [[Hovok _] _].
+      destruct (push_is_prefix dm cfg db fs Hd Hdry _ _ _ _ _ _ Ha (series_run_small_ok dm cfg db fs seg fresh n Hinv0 Hsm) Hb0)
+        as (_ & stk & _ & Happ & _ & Hbk).
+      assert (Hlinv : linv fs (a_files st)) by (eapply apply_series_linv; [exact Ha|]; intros k m; discriminate).
+      pose proof (linv_start_ok fs (a_files st) Hw (proj2 Hovok) Hlinv Hne) as Hstart.
+      pose proof (keys_indep_from _ Hovok Hnt) as Hind.
+      pose proof (saved_tree_reads_as_overlay K dm (a_files st) fs fs1 cl Hf Hs Hind Hstart
+                    (ainv_entry_ok dm _ (proj2 Hovok) Hinv' Hl) Ho) as Hreads.
+      assert (Hext2 : extsim K dm fs (fst (clean_all cl fs1)) (a_applied st) [] st fresh).
+      { split; [exact Hreads|]. exists [], []. cbn [app a_applied fresh]. repeat split; constructor. }
+      assert (Hb2 : forall s, In s (a_applied st) -> (st_index s < n + length seg)%nat).
+      { intros s Hs'. rewrite Happ in Hs'. apply Hbk. exact Hs'. }
+      destruct (IH fs st (a_applied st) rest Hext2 Hb2 (series_in_app_r K db _ _ Hin)) as (base2 & H2).
+      eapply ressim_sersim_chain; eassumption.
+  Qed.
+End Chain.
+
+(* from nothing applied: the single push of all segments and a rest, against the last invocation of the split *)
+Corollary split_from_scratch K dm cfg db fs segs fs_end n_end rest :
+  c_dry_run cfg = false -> chain K dm cfg db fs 0 segs fs_end n_end ->
+  series_in K db (List.concat segs ++ rest) ->
+  exists base,
+    ressim (sersim K dm fs fs_end base [])
+           (snd (apply_series cfg db fresh 0 (List.concat segs ++ rest) fs))
+           (snd (apply_series cfg db fresh n_end rest fs_end)).
+Proof.
+  intros Hdry Hc Hin.
+  apply (split_pushes_equal_one K dm cfg db Hdry fs 0%nat segs fs_end n_end Hc fs fresh [] rest); [|intros s []|exact Hin].
+  split; [apply wsim_refl|]. exists [], []. cbn [app a_applied fresh]. repeat split; constructor.
+Qed.
